@@ -100,9 +100,6 @@ func oneConcurrent(p concParams, seed uint64) (string, map[string]int) {
 				own := msg.ID
 				hi := r.Chance(3, 4)
 				mode := []time.Duration{-1, 0, 2 * time.Millisecond}[r.Intn(3)]
-				if !hi && mode == -1 {
-					mode = 0 // the wait-forever low send is open finding 1: not used here
-				}
 				startQ := atomic.LoadInt64(&qClosedSeq)
 				startT := atomic.LoadInt64(&closedSeq[t])
 				err := cl.SendTimeout(msg, hi, mode)
